@@ -405,7 +405,7 @@ class Gen:
     def length_expr(self, int_names):
         r = self.r
         a = r.choice(int_names)
-        forms = [a, f"{a} + 1", f"{a} * 2", f"{a} - 1", f"({a} & 3) + 1", f"{a} % 3", f"{a} >> 1", f"{a} | 1",
+        forms = [a, f"{a} + 1", f"{a} * 2", f"{a} - 1", f"({a} & 3) + 1", f"({a} & 7) % 3", f"{a} >> 1", f"{a} | 1",
                  f"{a}+1", f"2 * {a}", f"{a} - 2", f"-{a} + 3", f"~{a} & 3", f"{a} ^ 1", f"{a} << 1"]
         if len(int_names) > 1:
             b = r.choice(int_names)
